@@ -185,6 +185,11 @@ def get_stage(R, keep_workspace=False):
         with open(cache + ".tmp", "w") as f:
             json.dump({"obs": obs, "info": info}, f)
         os.replace(cache + ".tmp", cache)
+        # a runtime cache computed from an earlier stage under the same key is stale now
+        try:
+            os.unlink(os.path.join(SCRATCH, "runtime-%s.json" % key))
+        except OSError:
+            pass
         R.log("e2e stage: %d programs in %.0fs (%s)" % (len(obs), info["wall_s"], info["batches"]))
         return obs, info
 
